@@ -257,12 +257,32 @@ def gen_walk(rng, m, holders, steps):
     return ev
 
 
+def gen_oversign(rng, m, holders):
+    """More signers than needed, then a dictionary hand-off to one of them (or to somebody new) who signs again."""
+    W = len(holders)
+    L = min(W, m + rng.choice([1, 1, 2]))
+    order = rng.sample(range(1, W + 1), L)
+    ev = [E('propose', order[0])]
+    for k, w in enumerate(order):
+        if k > 0:
+            ev.append(E('handoff', order[k - 1], w, rng.choice(['object', 'dict', 'file'])))
+        ev.append(E('sign', w))
+    back = rng.choice(order[:-1] + [x for x in range(1, W + 1) if x not in order][:1])
+    ev += [E('handoff', order[-1], back, 'dict'), E('sign', back), E('verify', back)]
+    if rng.random() < 0.5:
+        nxt = rng.choice([x for x in range(1, W + 1) if x != back])
+        ev += [E('handoff', back, nxt, rng.choice(FORMS)), E('sign', nxt)]
+        back = nxt
+    ev.append(E('send', back))
+    return ev
+
+
 def gen_ceremonies(rng, m, holders, budget):
     """Chains of m (and m + 1) distinct signer wallets: every signing order x every combination of hand-off forms while
     that is a small set, a seeded sample of it otherwise; the rest of the budget are random walks."""
     W = len(holders)
     out = []
-    nsys = max(1, budget * 2 // 3)
+    nsys = max(1, budget * 3 // 5)
     lengths = sorted({min(W, m), min(W, m + 1)})
     size = 0
     for L in lengths:
@@ -282,6 +302,9 @@ def gen_ceremonies(rng, m, holders, budget):
             combos.append((tuple(rng.sample(range(1, W + 1), L)), tuple(rng.choice(FORMS) for _ in range(L - 1))))
     for i, (order, forms) in enumerate(combos):
         out.append(gen_chain(rng, m, holders, list(order), list(forms), spice=i % 2 == 1))
+    if W > m:
+        for _ in range(3):
+            out.append(gen_oversign(rng, m, holders))
     while len(out) < budget - 2:
         out.append(gen_walk(rng, m, holders, rng.randrange(5, 12)))
     return out
